@@ -167,7 +167,7 @@ class ContainerScenario(Scenario):
             op["vs"] = items(len(idx))
             op["src"] = rng.choice(["list", "tuple", "iter"])
         elif what in ("mul", "imul"):
-            op["n"] = rng.choice([0, 1, 2, 3, -1])
+            op["n"] = rng.choice([0, 1, 2, 3, -1]) if n <= 60 else rng.choice([0, 1, -1])      # no exponential growth over long histories
         elif what == "pop":
             op["i"] = rng.choice([None, rng.randint(-n - 1, n)]) if n else rng.choice([None, 0])
         elif what in ("remove", "index", "count", "contains"):
@@ -404,7 +404,13 @@ class ContainerScenario(Scenario):
                     self.check_typed_result(st, rec, "add", r, r2, spec, c)
         elif what == "radd":
             # a built-in list on the left: list.__add__ decides, the result starts with the left operand's items as given
-            left = [dec(x) for x in op.get("vs", [])]
+            left = []
+            for x in op.get("vs", []):
+                nx, ok = self.norm_item(st, spec, dec(x))
+                if not ok or spec.get("validator") == "tag":
+                    rec.log("skip-unacceptable")
+                    return
+                left.append(nx)      # already normal: whether the left operand is validated too is left open
             r, e, r2, e2 = self._both(lambda: left + proxy, lambda: left + m)
             self.compare(st, rec, "radd", proxy, m, list(r) if r is not None else r, e, r2, e2)
         elif what in ("setitem", "setitem_indexobj"):
@@ -489,7 +495,11 @@ class ContainerScenario(Scenario):
         rec.check()
         if type(r).__name__ != "ListProxy":
             rec.fail("C17/typed", "C17/result-not-typed/%s/%s" % (what, type(r).__name__), "%s returned a %s" % (what, type(r).__name__))
-        if not same(list(list.__iter__(r)), r2):
+        if spec.get("validator") == "tag":
+            # the result is "typed and validated": whether that validates the items it takes over a second time is open, and
+            # with a validator that is not idempotent the two readings give different contents
+            rec.probe("typed-result-with-rewriting-validator:" + what)
+        elif not same(list(list.__iter__(r)), r2):
             rec.fail("C17/contents", "C17/result-contents-differ/%s" % what, "%s gave %r, the built-in %r" % (what, canon(list(r)), canon(r2)))
         bad = {"int": "x", "float": "x", "string": 5, "bool": "maybe", "ipv4addr": "nope", "port": 0, "bytes": 5, "url": "noscheme", "hostname": "no such host"}[spec["kind"]]
         if model.norm(spec, bad, st.ctx) == model.REJ:
